@@ -67,7 +67,7 @@ use octseq::octets::Octets;
 use ring::{hkdf::KeyType, hmac, rand};
 
 use crate::base::header::HeaderSection;
-use crate::base::iana::{Class, Rcode, TsigRcode};
+use crate::base::iana::{Class, Rcode, Rtype, TsigRcode};
 use crate::base::message::Message;
 use crate::base::message_builder::{
     AdditionalBuilder, MessageBuilder, PushError,
@@ -1499,6 +1499,12 @@ impl<'a, Octs: Octets + ?Sized> MessageTsig<'a, Octs> {
             let start = section.pos();
 
             let Some(record) = section.next() else {
+                // RFC 8945, section 5.2: a TSIG record in any other
+                // position than the last of the additional section is a
+                // format error, so look into the other sections, too.
+                if Self::has_tsig_outside_additional(msg)? {
+                    return Err(TsigError::Position);
+                }
                 return Err(TsigError::Missing);
             };
 
@@ -1525,6 +1531,21 @@ impl<'a, Octs: Octets + ?Sized> MessageTsig<'a, Octs> {
                 return Ok(MessageTsig { record, start });
             }
         }
+    }
+
+    /// Returns whether the answer or authority section has a TSIG record.
+    fn has_tsig_outside_additional(
+        msg: &Message<Octs>,
+    ) -> Result<bool, TsigError> {
+        let answer = msg.answer().map_err(|_| TsigError::ParseError)?;
+        let authority = msg.authority().map_err(|_| TsigError::ParseError)?;
+        for record in answer.chain(authority) {
+            let record = record.map_err(|_| TsigError::ParseError)?;
+            if record.rtype() == Rtype::TSIG {
+                return Ok(true);
+            }
+        }
+        Ok(false)
     }
 
     fn variables(&self) -> Variables {
